@@ -225,10 +225,12 @@ func runC04(c *Ctx) {
 		okE := true
 
 		for _, in := range Find(f, ReturnsNonNil(1)) {
-			rv := in.(*ssa.Return).Results[1]
-			d := p.Desc(rv)
-			if !(Glob("call:"+gGet+"(*)#1", d) || Glob(upd, d) || Glob("call:pkg/state.errPhaseConflict(*", d) || p.IsDynType(rv, "pkg/state.ePhaseConflict") || Glob("call:dyn:param#3(*", d)) {
-				okE = false
+			// (through joins left by helpers: every value the error can be)
+			for _, l := range PhiLeaves(in.(*ssa.Return).Results[1]) {
+				d := p.Desc(l)
+				if !(Glob("call:"+gGet+"(*)#1", d) || Glob(upd, d) || Glob("call:pkg/state.errPhaseConflict(*", d) || p.IsDynType(l, "pkg/state.ePhaseConflict") || Glob("call:dyn:param#3(*", d)) {
+					okE = false
+				}
 			}
 		}
 
